@@ -61,6 +61,8 @@ theorem RgInv.drain {b : RgBuilder} {pushed : List Rng} (h : RgInv b pushed) : R
 theorem RgInv.push {sh cap : Nat} {b : RgBuilder} {pushed : List Rng} (h : RgInv b pushed) (r : Rng)
     (hr : r.1 < r.2) : RgInv (b.push sh cap r) (pushed ++ [degradeRange sh r]) := by
   unfold RgBuilder.push
+  rw [if_pos hr]
+  unfold RgBuilder.pushNE
   have hne := degradeRange_nonempty sh r hr
   generalize degradeRange sh r = nr at *
   have key : ∀ b' : RgBuilder, RgInv b' (pushed ++ [nr]) →
@@ -192,5 +194,25 @@ theorem fromMaxdepthRanges_eq (sh cap : Nat) (rs : List Rng) (hr : ∀ r ∈ rs,
   have hb : ((rs.foldl (RgBuilder.push sh cap) {}).drain).buff = [] := rfl
   rw [hb] at this
   simpa using this
+
+/-- Empty ranges are ignored by the (repaired) builder. -/
+theorem foldl_push_filter (sh cap : Nat) (rs : List Rng) : ∀ b : RgBuilder,
+    rs.foldl (RgBuilder.push sh cap) b = (rs.filter fun r => decide (r.1 < r.2)).foldl (RgBuilder.push sh cap) b := by
+  induction rs with
+  | nil => intro b; rfl
+  | cons c t ih =>
+    intro b
+    by_cases hc : c.1 < c.2
+    · simp only [List.foldl_cons, List.filter_cons, hc, decide_true, if_true]; exact ih _
+    · simp only [List.foldl_cons, List.filter_cons, hc, decide_false]
+      rw [show RgBuilder.push sh cap b c = b by unfold RgBuilder.push; rw [if_neg hc]]
+      simpa using ih b
+
+/-- **Range builder, every input**: empty ranges contribute nothing, whatever their alignment. -/
+theorem fromMaxdepthRanges_eq_all (sh cap : Nat) (rs : List Rng) :
+    fromMaxdepthRanges sh cap rs = normalize ((rs.filter fun r => decide (r.1 < r.2)).map (degradeRange sh)) := by
+  rw [← fromMaxdepthRanges_eq sh cap _ (fun r hr => by simpa using (List.mem_filter.1 hr).2)]
+  unfold fromMaxdepthRanges
+  rw [foldl_push_filter]
 
 end Moc
